@@ -334,12 +334,12 @@ func (p *Parser) parseTaskOutputs() ([]ast.Node, error) {
 				case tok.Is(token.COMMA):
 					// Absorb a comma
 				case tok.Is(token.ERROR):
-					return nil, errors.New(next.Value)
+					return nil, errors.New(tok.Value)
 				default:
 					return nil, illegalToken{
 						expected:    []token.Type{token.STRING, token.IDENT, token.COMMA},
 						encountered: tok,
-						line:        p.getLine(next),
+						line:        p.getLine(tok),
 					}
 				}
 				tok = p.next()
